@@ -219,8 +219,9 @@ Definition macro_definition (l : list tok) : res (tok * option (list tok) * list
 
 Definition one_tok : tok := mkTok KNum false Gen.C03_tables.default_expansion true.
 
-(* macro_from_definition_string, after Lexer(string).tokenize() *)
-Definition macro_from_deftokens (l : list tok) : res macro :=
+(* macro_from_definition_string as it was before the repair: the whole string lexed at once,
+   the separator matched as an Operator token (kept for the refutation witness) *)
+Definition macro_from_deftokens_orig (l : list tok) : res macro :=
   match macro_definition l with
   | Err e => Err e
   | Ok (id, args, rest) =>
@@ -229,6 +230,18 @@ Definition macro_from_deftokens (l : list tok) : res macro :=
       | e :: v => if tkind_eqb (tk e) KOp && String.eqb (tt e) Gen.C03_tables.define_separator then make_macro id args v
                   else Err "ParseError"
       end
+  end.
+
+(* macro_from_definition_string: head, separator, value = string.partition("=");
+   [l] = Lexer(head + " " + value).tokenize(), [head_length] = len(Lexer(head).tokenize()),
+   [sep] = the separator was present.  (str.partition itself is not modelled.) *)
+Definition macro_from_dash_d (l : list tok) (head_length : nat) (sep : bool) : res macro :=
+  match macro_definition l with
+  | Err e => Err e
+  | Ok (id, args, rest) =>
+      if Nat.eqb (List.length l - List.length rest) head_length
+      then make_macro id args (if sep then rest else [one_tok])
+      else Err "ParseError"
   end.
 
 (* DirectiveParser.define after `define` has been matched + DefineNode.evaluate_for_platform *)
